@@ -56,6 +56,13 @@ def _cases(tier):
         ),
         e,
     )
+    for i, val in enumerate((0, False, "", [], 0.0)):
+        yield (f"falsy-answer-{i}", T.prog([T.interrupt("ask", ["e0"], ["ans"], behav={"const": val}), T.fn("use", ["ans"], ["u0"])]), e)
+    yield (
+        "multi-output-at-head",
+        T.prog([T.interrupt("rev", ["e0"], ["dec", "note"], behav="env"), T.interrupt("one", ["e0"], ["o1"], behav="env"), T.fn("use", ["dec", "note", "o1"], ["u0"])]),
+        e,
+    )
     yield (
         "chain-of-three",
         T.prog(
@@ -120,7 +127,6 @@ class Overrides(H):
                 r = self.over[spec["id"]]
                 outs = spec["outs"]
                 return r[outs[0]] if len(outs) == 1 else dict(r)
-            return self.answer(spec, c)
         return super().compute(spec, c)
 
 
@@ -154,6 +160,9 @@ def run_history(prog, inputs, ch, suspend):
                 res = loop.run_main(runner.run(g, dict(ins), error_handling="continue"), ch)
         except (Deadlock, Horizon):
             return [({"symptom": "no-termination"}, "run did not terminate")], None
+        except Exception as e:  # noqa: BLE001 - the call itself was rejected
+            out.append(({"symptom": "run-rejected", "type": type(e).__name__, "resume": bool(paused_seq)}, f"history {paused_seq}: run with the responses supplied was rejected: {type(e).__name__}: {str(e)[:160]}"))
+            return out, None
         finally:
             loop.close()
         calls = h.calls[n_before:]
